@@ -104,6 +104,61 @@ theorem C09_conflict_fails_run {ρ α : Type} (g : CGraph) (n : Nat) (k : String
     Prog.run (.gop (.addNodeAttr n k v f) kont) s = .fail f { s with graph := g' } := by
   simp [Prog.run, hs, h]
 
+/-- **an attribute on an edge that does not exist (strict).** The statement fails with `UndefinedEdge` and the graph —
+every other edge of the source node included — is left exactly as it was: the attribute lands on no other edge. -/
+theorem C09_attr_on_missing_edge_strict {ρ : Type} (g : CGraph) (src sink : Nat) (k : String) (v : Val) (nd : GNode)
+    (hn : g.node? src = some nd) (he : nd.getEdge sink = none) (s : Prog.MSt ρ) (hs : s.graph = g) :
+    Prog.run (Strict.addAttribute (ρ := ρ) (.edge src sink) k v) s = .fail (.err (.base .undefinedEdge "")) s := by
+  have h : g.addEdgeAttr src sink k v = some none := by simp [CGraph.addEdgeAttr, hn, he]
+  cases s with
+  | mk graph rest ps =>
+    simp only at hs; subst hs
+    simp [Strict.addAttribute, Prog.gopP, Prog.throwK, Bind.bind, Prog.bind, Prog.run, GraphOp.apply, h]
+
+/-- the graph operation itself: no edge, no change, whatever other edges the node has -/
+theorem C09_missing_edge_op_is_noop (g : CGraph) (src sink : Nat) (k : String) (v : Val) (f : Fail) (nd : GNode)
+    (hn : g.node? src = some nd) (he : nd.getEdge sink = none) :
+    (GraphOp.addEdgeAttr src sink k v f).apply g = (.ok (some none), g) := by
+  simp [GraphOp.apply, CGraph.addEdgeAttr, hn, he]
+/-- **an attribute on an edge that does not exist (lazy).** Once the attribute's value is there, applying a deferred
+edge-attribute statement whose edge was never created fails with `UndefinedEdge`, in the state in which the value was
+obtained: no edge of the graph is touched, and the remaining attributes of the statement are not applied. -/
+theorem C09_attr_on_missing_edge_lazy (cfg : Cfg) (ef src sink : Nat) (dbg : StmtCtx) (name : String) (lv : LVal)
+    (rest : List (String × LVal)) (s s' : Prog.MSt LSt) (v : Val) (nd : GNode)
+    (hev : Prog.run (Lazy.evalL cfg ef lv) s = .ok v s')
+    (hn : s'.graph.node? src = some nd) (he : nd.getEdge sink = none) :
+    Prog.run (Lazy.evalEdgeAttrs cfg ef src sink dbg ((name, lv) :: rest)) s = .fail (.err (.base .undefinedEdge "")) s' := by
+  have hg : s'.graph.getEdge src sink = none := by simp [CGraph.getEdge, hn, he]
+  have hsome : (s'.graph.node? src).isNone = false := by simp [hn]
+  unfold Lazy.evalEdgeAttrs
+  rw [Prog.run_bind, hev]
+  simp only []
+  rw [Prog.run_bind]
+  simp [Prog.gopP, Prog.run, GraphOp.apply, hg, hsome, Prog.throwK]
+/-- a new edge gets its (debug) attributes and NO OTHER edge of the graph changes: the attributes given at creation land on
+the edge that was asked for, also when the node already has edges to larger or smaller sinks -/
+theorem C09_new_edge_others_untouched (g : CGraph) (src sink : Nat) (attrs : Attrs) (nd : GNode)
+    (hinv : Inv g) (hn : g.node? src = some nd) (he : nd.getEdge sink = none) :
+    ∃ g', (GraphOp.addEdge src sink attrs).apply g = (.ok (some true), g') ∧
+      ∀ a b, (a, b) ≠ (src, sink) → g'.getEdge a b = g.getEdge a b := by
+  have hsorted := node_sorted g hinv src nd hn
+  have hnew : (GNode.insertEdge nd.edges sink).2 = true :=
+    (GNode.insertEdge_new_iff nd.edges sink hsorted).mpr (by simpa [GNode.getEdge] using he)
+  refine ⟨g.setNode src { edges := GNode.setEdgeAttrs (GNode.insertEdge nd.edges sink).1 sink attrs, attrs := nd.attrs },
+    by simp [GraphOp.apply, hn, GNode.addEdge, hnew], ?_⟩
+  intro a b hab
+  have hlt : src < g.nodes.length := lt_of_getElem?_some _ _ _ hn
+  by_cases ha : a = src
+  · subst ha
+    have hb : b ≠ sink := fun h => hab (by rw [h])
+    simp only [CGraph.getEdge, node?, getElem?_setNode, if_true]
+    simp only [node?] at hn
+    simp only [hn, Option.map_some, GNode.getEdge]
+    rw [GNode.lookup_setEdgeAttrs_other _ _ _ _ hb, GNode.lookup_insertEdge_other _ _ _ hb]
+  · simp only [CGraph.getEdge, node?, getElem?_setNode]
+    have : ¬ (src = a) := fun h => ha h.symm
+    simp [this]
+
 /-- non-vacuity -/
 example : Inv CGraph.empty := inv_empty
 
